@@ -55,7 +55,7 @@ package apk
 //@
 //@ func newMerkleHasher
 //@   property C05
-//@   ensures @fresh_hasher_with_an_empty_one_mib_buffer ret0 != nil && hasherOK(ret0) && ret0.n == 0 && ret0.count == 0 && sameslice(ret0.hashes, hashes)
+//@   ensures @fresh_hasher_with_an_empty_one_mib_buffer ret0 != nil && hasherOK(ret0) && ret0.n == 0 && ret0.count == 0 && len(ret0.hashes) == len(hashes)
 //@   fresh ret0
 //@   modifies nothing
 //@
